@@ -109,13 +109,13 @@ fn c14_le_bytes_to_i32s_dispatch() {
     c14_le_bytes_to_i32s_dispatch_body(4);
 }
 
-fn c14_i32s_to_le_bytes_body(bps: usize) {
-    let ints: [i32; 2] = kani::any();
-    let old: [u8; 10] = kani::any();
+fn c14_i32s_to_le_bytes_body<const N: usize>(bps: usize) {
+    let ints: [i32; N] = kani::any();
+    let old: [u8; 24] = kani::any();
     let mut dest = old;
     i32s_to_le_bytes(&ints, &mut dest, bps);
     let mut i = 0;
-    while i < 2 {
+    while i < N {
         let mut k = 0;
         while k < bps {
             assert!(dest[i * bps + k] == (ints[i] >> (8 * k)) as u8);
@@ -123,32 +123,48 @@ fn c14_i32s_to_le_bytes_body(bps: usize) {
         }
         i += 1;
     }
-    let mut j = 2 * bps;
-    while j < 10 {
+    let mut j = N * bps;
+    while j < 24 {
         assert!(dest[j] == old[j]);
         j += 1;
     }
     // conversion back gives the same integers whenever they fit in `bps` bytes: the two delivery
     // forms of one signal describe the same samples.
-    if spec_fits(ints[0] as i64, 8 * bps) && spec_fits(ints[1] as i64, 8 * bps) {
-        let mut back = [0i32; 2];
-        le_bytes_to_i32s(&dest[0..2 * bps], &mut back, bps);
-        assert!(back[0] == ints[0] && back[1] == ints[1]);
+    let mut all_fit = true;
+    let mut i = 0;
+    while i < N {
+        if !spec_fits(ints[i] as i64, 8 * bps) {
+            all_fit = false;
+        }
+        i += 1;
+    }
+    if all_fit {
+        let mut back = [0i32; N];
+        le_bytes_to_i32s(&dest[0..N * bps], &mut back, bps);
+        let mut i = 0;
+        while i < N {
+            assert!(back[i] == ints[i]);
+            i += 1;
+        }
     }
     kani::cover!(ints[0] < 0 && spec_fits(ints[0] as i64, 8 * bps));
-    kani::cover!(ints[1] as i64 == -(1i64 << (8 * bps - 1)));
+    kani::cover!(ints[N - 1] as i64 == -(1i64 << (8 * bps - 1)));
     kani::cover!(!spec_fits(ints[0] as i64, 8 * bps) || bps == 4);
 }
 
-/// `i32s_to_le_bytes`: byte k of sample i is bits 8k.. of the integer (inverse of the above).
-//@ unit props=C14,C03 tier=quick kind=bounded timeout=300 funcs="i32s_to_le_bytes; le_bytes_to_i32s" bound="2 samples for each bytes-per-sample 1..=4 (concrete loop), every i32 value"
+/// `i32s_to_le_bytes`: byte k of sample i is bits 8k.. of the integer (inverse of the above), for
+/// EVEN and ODD sample counts (a pair-wise or batched rewrite must not drop the tail).
+//@ unit props=C14,C03 tier=quick kind=bounded timeout=600 funcs="i32s_to_le_bytes; le_bytes_to_i32s" bound="2, 3 and 5 samples for each bytes-per-sample 1..=4 (concrete loops), every i32 value"
 #[kani::proof]
-#[kani::unwind(12)]
+#[kani::unwind(26)]
 fn c14_i32s_to_le_bytes() {
-    c14_i32s_to_le_bytes_body(1);
-    c14_i32s_to_le_bytes_body(2);
-    c14_i32s_to_le_bytes_body(3);
-    c14_i32s_to_le_bytes_body(4);
+    c14_i32s_to_le_bytes_body::<2>(1);
+    c14_i32s_to_le_bytes_body::<3>(2);
+    c14_i32s_to_le_bytes_body::<3>(3);
+    c14_i32s_to_le_bytes_body::<5>(3);
+    c14_i32s_to_le_bytes_body::<2>(3);
+    c14_i32s_to_le_bytes_body::<3>(4);
+    c14_i32s_to_le_bytes_body::<5>(1);
 }
 
 // ================================================================================================
